@@ -8,7 +8,8 @@
 
     The verdict replays the history on the heap model (Model/LoggerChain, token rendering, Go-like
     growth policy) under the discipline read from the source (clips, fresh_only):
-      - [spec_ok]   every line equalled its isolated replay (the property itself, on the implementation);
+      - [spec_ok]   every line equalled its isolated replay AND carries exactly the attribute markers of its own
+                    chain, in order, followed by the record's own (the property itself, on the implementation);
       - [model_ok]  the model's lines carry exactly the observed marker ids (pi(model) = pi(impl));
       - [iso_ok]    the model's in-tree lines equal the model's isolated lines (instance of C03_isolation);
       - [noclip_viol] the same history on the model WITHOUT clip breaks isolation somewhere
@@ -78,6 +79,16 @@ Fixpoint zip_all {X Y} (f : X -> Y -> bool) (a : list X) (b : list Y) : bool :=
   | _, _ => false
   end.
 
+(** the attribute markers a node's line must carry, read off its chain alone (no heap): the attributes
+    of every With on the way from the root, in order, then the record's own *)
+Definition chain_attr_ids (c : chain tA tG) : list N :=
+  flat_map (fun d => match d with DAttrs l => map fst l | DGroup _ => [] end) c.
+Definition want_ids (tops : list top) (o : cop) : list N :=
+  match o with
+  | CL n _ ownid ownsize _ _ => chain_attr_ids (chain_of tA tG unit tops n) ++ (match ownsize with 0 => [] | _ => [ownid] end)
+  | _ => []
+  end.
+
 Record verdict := mkV { spec_ok : bool; model_ok : bool; iso_ok : bool; noclip_viol : bool; nlogs : nat }.
 
 Definition check_case (kind : nat) (clip fresh : bool) (ops : list cop) : verdict :=
@@ -86,9 +97,12 @@ Definition check_case (kind : nat) (clip fresh : bool) (ops : list cop) : verdic
   let good := run_model kind (flags_of kind clip fresh) tops in
   let bad := run_model kind (flags_of kind false fresh) tops in
   let rec_of (o : cop) := match to_op o with Log _ r => r | _ => mkRecord tt [] end in
-  {| spec_ok := forallb (fun o => match o with CL _ e _ _ _ _ => e | _ => true end) ops;
+  {| spec_ok := forallb (fun o => match o with CL _ e _ _ oa _ => e && list_eqb oa (want_ids tops o) | _ => true end) ops;
      model_ok := zip_all (fun o w => match o with
-                                     | CL n _ _ _ oa og => Nat.eqb n (fst w) && list_eqb (attr_ids (snd w)) oa && list_eqb (group_ids (snd w)) og
+                                     | CL n _ _ ownsize oa og =>
+                                         Nat.eqb n (fst w) && list_eqb (attr_ids (snd w)) oa
+                                         (* a Text line shows its open groups only in the keys of the record's own attributes *)
+                                         && ((Nat.eqb kind 1 && Nat.eqb ownsize 0) || list_eqb (group_ids (snd w)) og)
                                      | _ => false end) ls good;
      iso_ok := zip_all (fun o w => match o with
                                    | CL n _ _ _ _ _ => list_eqb (snd w) (alone_model kind (flags_of kind clip fresh) tops n (rec_of o))
